@@ -10,6 +10,9 @@ def repo_fix_and_hook_commits():
     return hooks
 
 CHECKS = {
+ 'C17': dict(level='exploration', design='6 C17', technique='deterministic simulation: 2-8 real SqliteStorage handles on one directory, every storage call a scheduling point of the seeded scheduler, real SQLite lock waits issued deliberately (one waiter at a time); linearizability audit of the stored log against a sequential model in commit order',
+   text='Each handle has its own connection and actor thread; the seeded scheduler interleaves the handles at single-storage-call granularity and makes BEGIN IMMEDIATE really block behind another handle\'s transaction. Afterwards a fresh handle must find an operation log equal to the successful commits concatenated in the order their commits returned, tasks equal to their one-at-a-time application (undo included), and a duplicate-free working set.',
+   note='Handles are futures in one process (separate connections and threads); separate OS processes are not exercised. Who waits for the lock is the simulator\'s choice; two simultaneous waiters are never created because SQLite\'s real-time back-off would choose between them.'),
  'C06': dict(level='fault_enumeration', design='6 C06', technique='deterministic simulation with fault injection over the real SqliteStorage: every storage call of an action interrupted in-process (error / dropped caller), plus victim processes really SIGKILLed at storage-call and write-syscall indices; fresh-handle reopen compared with the recorded transaction-boundary states',
    text='For each sampled action (commit, undo, rebuild, sync, expire) on a SQLite replica the state after each of its transaction commits is recorded through fresh handles; the action is then re-executed from a copy of the directory with an interruption at every storage call (error returned; caller dropped) and, in victim processes, killed by SIGKILL at storage-call indices, right after returning, and at write-class system-call indices inside SQLite\'s commit. A freshly opened store must show exactly the state after the commits that had returned (for write-syscall kills: that or the next boundary), never a partial state, and must open at all.',
    note='Crash model: process stop with completed system calls surviving (what the property states); power loss / lost un-fsynced writes not modelled. Write-class syscalls are intercepted by symbol interposition in the harness binary.'),
